@@ -232,31 +232,44 @@ func (m *Model) RunPathAPI(s *Sink, rule string) {
 	// unknown name -> template not found
 	st := m.Method("textwire", "Template", "String")
 	if st != nil {
-		ok := false
-		for _, b := range st.Blocks {
-			for _, in := range b.Instrs {
-				lk, isLk := in.(*ssa.Lookup)
-				if !isLk || !lk.CommaOk || !strings.HasSuffix(fieldPathOf(lk.X), ".programs") {
+		ok, keyOK, nLk := false, true, 0
+		// the program lookup (in String or a helper it delegates to): keyed by the name exactly as given, and its miss edge
+		// builds the template-not-found error
+		m.walkInlined(st, 2, func(in ssa.Instruction, resolve func(ssa.Value) ssa.Value, _ int) {
+			lk, isLk := in.(*ssa.Lookup)
+			if !isLk || !lk.CommaOk || !strings.HasSuffix(fieldPathOf(lk.X), ".programs") {
+				return
+			}
+			nLk++
+			if len(st.Params) < 2 || resolve(lk.Index) != ssa.Value(st.Params[1]) {
+				keyOK = false
+			}
+			for _, rr := range *lk.Referrers() {
+				ex, isEx := rr.(*ssa.Extract)
+				if !isEx || ex.Index != 1 {
 					continue
 				}
-				for _, rr := range *lk.Referrers() {
-					ex, isEx := rr.(*ssa.Extract)
-					if !isEx || ex.Index != 1 {
-						continue
-					}
-					for _, fb := range failureTargets(ex) {
-						if ret, isRet := fb.Instrs[len(fb.Instrs)-1].(*ssa.Return); isRet && len(ret.Results) == 2 && !isNilConst(ret.Results[1]) {
-							for _, fin := range fb.Instrs {
-								if c, isC := fin.(*ssa.Call); isC && c.Call.StaticCallee() != nil && canonFnName(c.Call.StaticCallee()) == "New" && len(c.Call.Args) >= 4 {
-									if msg, okm := constOfValue(c.Call.Args[3]); okm && msg == "template not found" {
-										ok = true
-									}
+				for _, fb := range failureTargets(ex) {
+					// blocks reached on the miss edge before anything else decides: the target and the blocks it dominates
+					for _, db := range fb.Parent().Blocks {
+						if !fb.Dominates(db) {
+							continue
+						}
+						for _, fin := range db.Instrs {
+							if c, isC := fin.(*ssa.Call); isC && c.Call.StaticCallee() != nil && canonFnName(c.Call.StaticCallee()) == "New" && len(c.Call.Args) >= 4 {
+								if msg, okm := constOfValue(c.Call.Args[3]); okm && msg == "template not found" {
+									ok = true
 								}
 							}
 						}
 					}
 				}
 			}
+		})
+		if nLk > 0 && !keyOK {
+			s.Violation(rule, fnKey(st)+"|templates are looked up by the name as given", m.Pos(st.Pos()), "Template.String does not look the program up under the name it was given (the name is rewritten first): another template can be rendered in place of the requested one, and unknown names are not reported")
+		} else if nLk > 0 {
+			s.OK(rule, fnKey(st)+"|templates are looked up by the name as given", m.Pos(st.Pos()), "the key of the program lookup is the filename parameter itself")
 		}
 		if ok {
 			s.OK(rule, fnKey(st)+"|unknown name is reported as not found", m.Pos(st.Pos()), "the miss edge of the program lookup returns ErrTemplateNotFound")
